@@ -24,12 +24,68 @@ using namespace khizmax_libcds_verif;
 namespace ci = cds::intrusive;
 namespace cc = cds::container;
 
+// ---------------------------------------------------------------- flat-combining publication records
+// Thread exit and the FC kernel.  Each thread owns a publication record through a
+// boost::thread_specific_ptr; when the thread ends the TLS cleanup marks the record `removed`.
+// Left to the OS this happens after the thread has handed the baton over, i.e. concurrently with
+// the next scheduled thread and invisible to the scheduler (nondeterministic).  The fixture
+// therefore releases the TLS slot in thread_end(), under the baton, as an ordinary scheduling point
+// (`--fc_tls_in_baton 0` restores the OS behaviour).
+// The kernel's allocator is replaced by one that never returns memory while the container lives
+// (freed records stay readable) and that reports a record which is freed while it is still
+// reachable from the publication list: that is a use-after-free in libcds, reported as an X line.
+namespace fcwatch {
+    static std::vector<void*> quarantine;
+    static void const* kernel = nullptr;
+    static bool (*linked_fn)( void const* kernel, void const* rec ) = nullptr;
+    static unsigned long freed_linked = 0;
+
+    template <class Kernel>
+    bool is_linked( void const* k, void const* rec )
+    {
+        Kernel const* kk = static_cast<Kernel const*>( k );
+        for ( cds::algo::flat_combining::publication_record* r = kk->m_pHead; r; r = r->pNext.load( atomics::memory_order_relaxed ))
+            if ( static_cast<void const*>( static_cast<typename Kernel::publication_record_type*>( r )) == rec )
+                return true;
+        return false;
+    }
+    template <class Kernel>
+    void watch( Kernel* k ) { kernel = k; linked_fn = &is_linked<Kernel>; freed_linked = 0; }
+    inline void unwatch() { kernel = nullptr; linked_fn = nullptr; }
+    inline void release()
+    {
+        for ( void* p : quarantine ) ::operator delete( p );
+        quarantine.clear();
+    }
+
+    template <class T>
+    struct alloc {
+        typedef T value_type;
+        template <class U> struct rebind { typedef alloc<U> other; };
+        alloc() noexcept {}
+        template <class U> alloc( alloc<U> const& ) noexcept {}
+        T* allocate( size_t n, void const* = nullptr ) { return static_cast<T*>( ::operator new( n * sizeof( T ))); }
+        void deallocate( T* p, size_t ) noexcept
+        {
+            if ( linked_fn ) {
+                set_quiet( true );      // the walk below must not be a scheduling point (never called from a quiet region)
+                if ( linked_fn( kernel, p )) ++freed_linked;
+                set_quiet( false );
+            }
+            quarantine.push_back( p );
+        }
+        template <class U> bool operator==( alloc<U> const& ) const noexcept { return true; }
+        template <class U> bool operator!=( alloc<U> const& ) const noexcept { return false; }
+    };
+}
+
 struct IQueue {
     virtual ~IQueue() {}
     virtual bool enq( long v ) = 0;
     virtual bool deq( long& v ) = 0;
     virtual long size() { return -1; }                 // -1: no item counter
     virtual void shutdown( std::ostream* ) {}          // main thread, quiescent: drain and destroy the container
+    virtual void thread_exit() {}                      // scheduled thread, last action: release per-thread state of the container
 };
 
 // ---------------------------------------------------------------- value-copying containers
@@ -57,10 +113,18 @@ struct FCQueueV : IQueue {
         static constexpr bool const enable_elimination = Elim;
         typedef cds::algo::flat_combining::wait_strategy::backoff<> wait_strategy;
         typedef cds::sync::spin lock_type;
+        typedef fcwatch::alloc<int> allocator;
     };
     typedef cc::FCQueue<long, std::queue<long>, traits> queue_t;
     std::unique_ptr<queue_t> q;
-    FCQueueV( unsigned compact, unsigned pass ) : q( new queue_t( compact, pass )) {}
+    FCQueueV( unsigned compact, unsigned pass ) : q( new queue_t( compact, pass )) { fcwatch::watch( &q->m_FlatCombining ); }
+    ~FCQueueV()
+    {
+        fcwatch::unwatch();
+        q.reset();
+        fcwatch::release();
+    }
+    void thread_exit() override { q->m_FlatCombining.m_pThreadRec.reset(); }      // runs the kernel's tls_cleanup
     bool enq( long v ) override { return q->enqueue( v ); }
     bool deq( long& v ) override { return q->dequeue( v ); }
 };
@@ -154,16 +218,20 @@ struct IntrusiveFCQueueV : IQueue {
         static constexpr bool const enable_elimination = Elim;
         typedef cds::algo::flat_combining::wait_strategy::backoff<> wait_strategy;
         typedef cds::sync::spin lock_type;
+        typedef fcwatch::alloc<int> allocator;
     };
     typedef ci::FCQueue<item, boost::intrusive::list<item>, traits> queue_t;
     std::unique_ptr<queue_t> q;
     std::vector<std::unique_ptr<item>> items;
-    IntrusiveFCQueueV( unsigned compact, unsigned pass ) : q( new queue_t( compact, pass )) {}
+    IntrusiveFCQueueV( unsigned compact, unsigned pass ) : q( new queue_t( compact, pass )) { fcwatch::watch( &q->m_FlatCombining ); }
     ~IntrusiveFCQueueV()
     {
+        fcwatch::unwatch();
         q->clear();        // unlink (no disposer call) before the nodes are freed
         q.reset();
+        fcwatch::release();
     }
+    void thread_exit() override { q->m_FlatCombining.m_pThreadRec.reset(); }
     bool enq( long v ) override
     {
         item* p = new item;
@@ -196,6 +264,7 @@ struct Fixture {
     bool failed = false;
     std::string failure;
     long balance = 0;       // successful enq - successful deq of the scheduled program
+    bool fc = false, tls_in_baton = true;
 
     explicit Fixture( Case const& c )
     {
@@ -203,7 +272,7 @@ struct Fixture {
         typedef cds::gc::DHP DHP;
         unsigned compact = 1 + unsigned( c.index % 2 ), pass = 1 + unsigned( c.index % 4 );
         std::string const& v = c.variant;
-        bool fc = false;
+        tls_in_baton = c.optl( "fc_tls_in_baton", 1 ) != 0;
         if ( v == "msqueue_hp" ) s.reset( new ValueQ< cc::MSQueue<HP, long, ms_traits> > );
         else if ( v == "msqueue_dhp" ) s.reset( new ValueQ< cc::MSQueue<DHP, long, ms_traits> > );
         else if ( v == "msqueue_hp_ic" ) s.reset( new ValueQ< cc::MSQueue<HP, long, ms_ic_traits> >( true ));
@@ -264,7 +333,12 @@ struct Fixture {
         return p;
     }
     void thread_begin( int ) { set_quiet( true ); cds::threading::Manager::attachThread(); set_quiet( false ); }
-    void thread_end( int ) { set_quiet( true ); cds::threading::Manager::detachThread(); set_quiet( false ); }
+    void thread_end( int )
+    {
+        if ( tls_in_baton )
+            s->thread_exit();
+        set_quiet( true ); cds::threading::Manager::detachThread(); set_quiet( false );
+    }
     std::vector<long> exec( int, Op const& op )
     {
         if ( op.name == "enq" ) {
@@ -283,6 +357,12 @@ struct Fixture {
             failed = true;
             std::ostringstream os;
             os << "item counter " << sz << " != successful enq - deq = " << balance;
+            failure = os.str();
+        }
+        if ( fc && fcwatch::freed_linked ) {
+            failed = true;
+            std::ostringstream os;
+            os << "flat combining: " << fcwatch::freed_linked << " publication record(s) freed while still linked in the publication list";
             failure = os.str();
         }
         s->shutdown( &out );
